@@ -24,3 +24,4 @@ void logFrames(Out& o, const char* k, const std::vector<std::vector<uint8_t>>& f
 void runEnc(const nlohmann::json& ep);
 void runDec(const nlohmann::json& ep);
 void runObj(const nlohmann::json& ep);
+void runSt(const nlohmann::json& ep);
